@@ -6,7 +6,8 @@ abstract commutative ring with roots of unity for the Fourier pipeline).  Tie to
 * oracle — the property text evaluated directly on the real Dataset methods: independent strided
   block sums, block-mean coordinates in exact Fractions, an independent signed-frequency DFT
   interpolation matrix, mean / centre / extent / linearity / identity / band-limited up-down round
-  trip, pad-then-crop round trip;
+  trip, pad-then-crop round trip; the same oracles for the 2nd..4th call on one source dataset, against its ORIGINAL
+  calibration, with the source re-read after every copying call;
 * correspondence — the Coq model (vm_compute) on the same inputs: exact for bin / pad / crop and
   the calibration (integer and dyadic inputs), the PrimFloat instance of the SAME `resample`
   definition (twiddle table from numpy) with a relative tolerance for the resampled data.
@@ -151,14 +152,56 @@ def gen_cls(r, nd):
     return "Dataset"
 
 
+CALIB_FORMS = ["default", "default", "default", "float-list", "float-list", "float-array", "float-array", "scalar",
+               "int-tuple", "int-tuple", "int-array", "mixed", "float32-array"]
+INT_CALIB = ("int-tuple", "int-array")
+
+
+def gen_calib(r, nd):
+    """how origin / sampling reach from_array: not at all (its defaults np.zeros / np.ones), python floats, a float64 /
+    float32 / int64 ndarray, python ints, one float scalar for all axes, ints for the origin and floats for the sampling"""
+    form = r.choice(CALIB_FORMS)
+    if form == "default":
+        return form, [0] * nd, [8] * nd
+    o8, s8 = gen_meta(r, nd)
+    if form in INT_CALIB:
+        o8, s8 = [8 * r.randint(-5, 5) for _ in range(nd)], [8 * r.choice([1, 1, 2, 3, 5]) for _ in range(nd)]
+    elif form == "mixed":
+        o8 = [8 * r.randint(-5, 5) for _ in range(nd)]
+    elif form == "scalar":
+        o8, s8 = [o8[0]] * nd, [s8[0]] * nd
+    return form, o8, s8
+
+
+def calib_args(case, nd):
+    form = case.get("calib") or "float-list"
+    if form == "default":
+        return {}
+    o8, s8 = case.get("origin8", [0] * nd), case.get("sampling8", [8] * nd)
+    of, sf = [float(frac8(v)) for v in o8], [float(frac8(v)) for v in s8]
+    if form == "float-array":
+        return {"origin": np.array(of, dtype=np.float64), "sampling": np.array(sf, dtype=np.float64)}
+    if form == "float32-array":
+        return {"origin": np.array(of, dtype=np.float32), "sampling": np.array(sf, dtype=np.float32)}
+    if form == "scalar":
+        return {"origin": of[0], "sampling": sf[0]}
+    if form in INT_CALIB or form == "mixed":
+        oi = [int(v) // 8 for v in o8]
+        si = [int(v) // 8 for v in s8]
+        if form == "int-tuple":
+            return {"origin": tuple(oi), "sampling": tuple(si)}
+        if form == "int-array":
+            return {"origin": np.array(oi, dtype=np.int64), "sampling": np.array(si, dtype=np.int64)}
+        return {"origin": tuple(oi), "sampling": sf}
+    return {"origin": of, "sampling": sf}
+
+
 def dataset_of(case, a=None):
     import quantem.core.datastructures as qd
     a = make_array(case) if a is None else a
     nd = a.ndim
-    org = [float(frac8(v)) for v in case.get("origin8", [0] * nd)]
-    smp = [float(frac8(v)) for v in case.get("sampling8", [8] * nd)]
     cls = getattr(qd, case.get("cls") or "Dataset")
-    return cls.from_array(a.copy(), name="c06", origin=org, sampling=smp, units=["A"] * nd)
+    return cls.from_array(a.copy(), name="c06", units=["A"] * nd, **calib_args(case, nd))
 
 
 def passed_axes(case):
@@ -230,11 +273,13 @@ def close_arr(impl, want, rel, scale=None):
 # ------------------------------------------------------------------------------------------
 # BIN
 
-def gen_bin_case(r, quick=True):
-    dtype = r.choice(ALL_DTYPES)
-    shape = gen_shape(r)
+def gen_bin_case(r, quick=True, base=None):
+    """base: a source dataset (dtype, shape, data, calibration, class) the operation is generated FOR (sequences of
+    operations on one source); the random stream of the stand-alone cases (base=None) is unchanged"""
+    dtype = base["dtype"] if base else r.choice(ALL_DTYPES)
+    shape = base["shape"] if base else gen_shape(r)
     nd = len(shape)
-    d, di = gen_data(r, shape, dtype, big=True)
+    d, di = (base["data8"], base["data8_im"]) if base else gen_data(r, shape, dtype, big=True)
     k = r.choice([nd, r.randint(1, nd), r.randint(1, nd)])
     axes = sorted(r.sample(range(nd), k))
     if r.random() < 0.3:
@@ -251,10 +296,10 @@ def gen_bin_case(r, quick=True):
             form = "none-int"
     elif k == 1 and r.random() < 0.5:
         form = "int"
-    o8, s8 = gen_meta(r, nd)
+    o8, s8 = (base["origin8"], base["sampling8"]) if base else gen_meta(r, nd)
     case = {"kind": "bin", "dtype": dtype, "shape": shape, "data8": d, "data8_im": di, "axes": axes, "factors": facs,
             "form": form, "reducer": r.choice(["sum", "sum", "mean"]), "origin8": o8, "sampling8": s8,
-            "inplace": r.random() < 0.25, "cls": gen_cls(r, nd)}
+            "inplace": r.random() < 0.25, "cls": base["cls"] if base else gen_cls(r, nd)}
     if form in ("int", "tuple"):
         neg = gen_axes_neg(r, k)
         if neg:
@@ -508,17 +553,17 @@ def check_bin(ctx: Ctx):
 # ------------------------------------------------------------------------------------------
 # PAD / CROP
 
-def gen_pad_case(r):
-    dtype = r.choice(ALL_DTYPES)
-    shape = gen_shape(r, max_elems=90, max_len=9)
+def gen_pad_case(r, base=None):
+    dtype = base["dtype"] if base else r.choice(ALL_DTYPES)
+    shape = base["shape"] if base else gen_shape(r, max_elems=90, max_len=9)
     nd = len(shape)
-    d, di = gen_data(r, shape, dtype)
+    d, di = (base["data8"], base["data8_im"]) if base else gen_data(r, shape, dtype)
     mode = r.choice(["shape", "shape", "shape", "shape", "int", "pair", "seq"])
     case = {"kind": "pad", "dtype": dtype, "shape": shape, "data8": d, "data8_im": di, "mode": mode,
             "inplace": r.random() < 0.2,
             # third crop call of the round trip: only the padded axes are named (axes=...), by non-negative or
             # by negative index
-            "crop_axes": r.choice(["subset", "subset", "neg", "mixed"]), "cls": gen_cls(r, nd),
+            "crop_axes": r.choice(["subset", "subset", "neg", "mixed"]), "cls": base["cls"] if base else gen_cls(r, nd),
             # np.pad keyword arguments handed through Dataset.pad: any fill must be removed again by the crop
             "pad_kw": r.choice([None, None, None, "edge", "reflect", "symmetric", "wrap", "linear_ramp", "mean", "empty",
                                 "cv", "cv"])}
@@ -574,7 +619,10 @@ def pad_fill8(case, part):
 
 
 def pad_impl(case):
-    ds = dataset_of(case)
+    return pad_run(dataset_of(case), case)
+
+
+def pad_run(ds, case):
     if case["mode"] == "shape":
         kw = {"output_shape": tuple(case["out"])}
     elif case["mode"] == "int":
@@ -694,11 +742,11 @@ def pad_correspond(case, obs, v, part):
     return bad
 
 
-def gen_crop_case(r):
-    dtype = r.choice(ALL_DTYPES)
-    shape = gen_shape(r, max_elems=90, max_len=9)
+def gen_crop_case(r, base=None):
+    dtype = base["dtype"] if base else r.choice(ALL_DTYPES)
+    shape = base["shape"] if base else gen_shape(r, max_elems=90, max_len=9)
     nd = len(shape)
-    d, di = gen_data(r, shape, dtype)
+    d, di = (base["data8"], base["data8_im"]) if base else gen_data(r, shape, dtype)
     k = r.choice([nd, r.randint(1, nd)])
     axes = sorted(r.sample(range(nd), k))
     cw = []
@@ -708,7 +756,7 @@ def gen_crop_case(r):
         e = r.choice([0, 0, -1, -2, n, n - 1, r.randint(0, n), n + 2, -n - 1])
         cw.append([b, e])
     case = {"kind": "crop", "dtype": dtype, "shape": shape, "data8": d, "data8_im": di, "axes": axes, "cw": cw,
-            "axes_none": k == nd and r.random() < 0.5, "cls": gen_cls(r, nd)}
+            "axes_none": k == nd and r.random() < 0.5, "cls": base["cls"] if base else gen_cls(r, nd)}
     if not case["axes_none"]:
         neg = gen_axes_neg(r, k)
         if neg:
@@ -821,20 +869,20 @@ def remove_nyquist(a: np.ndarray, axes) -> np.ndarray:
     return y.astype(a.dtype)
 
 
-def gen_rs_case(r, sub=None):
+def gen_rs_case(r, sub=None, base=None):
     sub = sub or r.choice(["out", "out", "out", "factors"])
-    dtype = r.choice(ALL_DTYPES)
-    shape = gen_shape(r, ndim=r.choice([1, 1, 2, 2, 2, 3, 3, 4]), max_elems=100, max_len=11)
+    dtype = base["dtype"] if base else r.choice(ALL_DTYPES)
+    shape = base["shape"] if base else gen_shape(r, ndim=r.choice([1, 1, 2, 2, 2, 3, 3, 4]), max_elems=100, max_len=11)
     nd = len(shape)
-    d, di = gen_data(r, shape, dtype)
+    d, di = (base["data8"], base["data8_im"]) if base else gen_data(r, shape, dtype)
     k = r.choice([nd, nd, r.randint(1, nd)])
     axes = sorted(r.sample(range(nd), k))
     if r.random() < 0.25:
         r.shuffle(axes)
-    o8, s8 = gen_meta(r, nd)
+    o8, s8 = (base["origin8"], base["sampling8"]) if base else gen_meta(r, nd)
     case = {"kind": "rs", "sub": sub, "dtype": dtype, "shape": shape, "data8": d, "data8_im": di, "axes": axes,
             "axes_none": k == nd and axes == list(range(nd)) and r.random() < 0.5,
-            "origin8": o8, "sampling8": s8, "inplace": r.random() < 0.2, "cls": gen_cls(r, nd)}
+            "origin8": o8, "sampling8": s8, "inplace": r.random() < 0.2, "cls": base["cls"] if base else gen_cls(r, nd)}
     if not case["axes_none"]:
         neg = gen_axes_neg(r, k)
         if neg:
@@ -1188,6 +1236,272 @@ def check_resample_laws(ctx: Ctx):
 
 
 # ------------------------------------------------------------------------------------------
+# SEQUENCES: several operations on the SAME source dataset, one after the other
+
+SRC_KEYS = ("dtype", "shape", "data8", "data8_im", "origin8", "sampling8", "cls", "calib")
+OP_GEN = {"bin": lambda r, b: gen_bin_case(r, True, base=b), "rs": lambda r, b: gen_rs_case(r, base=b),
+          "pad": lambda r, b: gen_pad_case(r, base=b), "crop": lambda r, b: gen_crop_case(r, base=b)}
+
+
+def gen_seq_case(r):
+    """one source (any dtype / shape / class, calibration handed to from_array in one of the CALIB_FORMS) and 2..4
+    operations CALLED ON THAT SOURCE one after the other; all of them return a new dataset, except that a quarter of
+    the sequences end with an in-place call; the last operation is a bin or a resample (the two whose clauses speak
+    about the calibration), so that anything an earlier call did to the source has a consequence the property covers"""
+    dtype = r.choice(ALL_DTYPES)
+    shape = gen_shape(r, max_elems=90, max_len=9)
+    nd = len(shape)
+    d, di = gen_data(r, shape, dtype)
+    form, o8, s8 = gen_calib(r, nd)
+    src = {"kind": "seq", "dtype": dtype, "shape": shape, "data8": d, "data8_im": di, "origin8": o8, "sampling8": s8,
+           "cls": gen_cls(r, nd), "calib": form}
+    n = r.choice([2, 2, 3, 3, 4])
+    ops = []
+    for k in range(n):
+        kind = r.choice(["bin", "rs"] if k == n - 1 else ["bin", "bin", "bin", "rs", "rs", "pad", "crop"])
+        op = OP_GEN[kind](r, src)
+        op = {key: v for key, v in op.items() if key not in SRC_KEYS}
+        op["inplace"] = bool(k == n - 1 and r.random() < 0.25)
+        ops.append(op)
+    src["ops"] = ops
+    return src
+
+
+def seq_opcase(case, k):
+    """operation k as a stand-alone case ON THE ORIGINAL SOURCE: what the oracles and the model judge it against"""
+    return dict({key: case.get(key) for key in SRC_KEYS}, **case["ops"][k])
+
+
+def _meta_of(ds):
+    return (np.asarray(ds.origin, dtype=np.float64).tolist(), np.asarray(ds.sampling, dtype=np.float64).tolist())
+
+
+def seq_run(case):
+    """-> one entry per operation: {"op": stand-alone case, "obs": observation of the result (as the single-call
+    checks take it), "src": array / origin / sampling of the SOURCE re-read after the call (None after an in-place call)}"""
+    ds = dataset_of(case)
+    steps = []
+    for k in range(len(case["ops"])):
+        opc = seq_opcase(case, k)
+        kind = opc["kind"]
+        try:
+            if kind == "bin":
+                out = bin_call(ds, opc)
+                o, s = _meta_of(out)
+                obs = {"array": np.asarray(out.array).copy(), "origin": o, "sampling": s}
+            elif kind == "rs":
+                out = rs_call(ds, opc)
+                o, s = _meta_of(out)
+                obs = {"array": np.asarray(out.array).copy(), "origin": o, "sampling": s}
+            elif kind == "pad":
+                obs = pad_run(ds, opc)
+            else:
+                out = ds.crop(tuple(tuple(c) for c in opc["cw"]), None if opc["axes_none"] else tuple(passed_axes(opc)))
+                obs = {"array": np.asarray(out.array).copy()}
+        except Exception as e:  # noqa  (the same call is valid as the first call on a fresh dataset)
+            obs = {"raises": "%s: %s" % (type(e).__name__, e)}
+        src = None
+        if not opc.get("inplace"):
+            o, s = _meta_of(ds)
+            src = {"array": np.asarray(ds.array).copy(), "origin": o, "sampling": s}
+        steps.append({"op": opc, "obs": obs, "src": src})
+    return steps
+
+
+def _op_text(opc):
+    k = opc["kind"]
+    ip = ", modify_in_place=True" if opc.get("inplace") else ""
+    if k == "bin":
+        return "bin(%s, axes=%s, reducer=%r%s)" % (opc["factors"], None if opc["form"].startswith("none") else passed_axes(opc),
+                                                   opc["reducer"], ip)
+    if k == "rs":
+        return "fourier_resample(%s, axes=%s%s)" % (_rs_args(opc), None if opc.get("axes_none") else passed_axes(opc), ip)
+    if k == "pad":
+        return "pad(%s%s)" % (dict({"output_shape": opc["out"]} if opc["mode"] == "shape" else {"pad_width": opc["pw"]},
+                                   **pad_kwargs(opc)), ip)
+    return "crop(%s, axes=%s)" % (opc["cw"], None if opc["axes_none"] else passed_axes(opc))
+
+
+def seq_history(case, k):
+    calib = {"default": "from_array defaults", "float-list": "python floats", "float-array": "a float64 ndarray",
+             "float32-array": "a float32 ndarray", "scalar": "one float for all axes", "int-tuple": "python ints",
+             "int-array": "an int64 ndarray", "mixed": "int origin, float sampling"}[case.get("calib") or "float-list"]
+    pre = ["ds.%s" % _op_text(seq_opcase(case, j)) for j in range(k)]
+    return ("%s of shape %s %s, origin %s sampling %s (%s); %scall %d of %d on this source: ds.%s"
+            % (case.get("cls") or "Dataset", case["shape"], case["dtype"], [str(frac8(v)) for v in case["origin8"]],
+               [str(frac8(v)) for v in case["sampling8"]], calib,
+               ("after " + ", then ".join(pre) + " (all returning new datasets) - ") if pre else "", k + 1, len(case["ops"]),
+               _op_text(seq_opcase(case, k))))
+
+
+def seq_oracle(case, steps):
+    """every result judged by the single-call oracle of its operation against the ORIGINAL data and calibration of
+    the source; the source re-read after every copying call: the clauses relate the result to the source dataset
+    (sampling' = f * sampling, block / field-of-view centre preserved, crop(pad(x)) = x), and after the call the
+    source dataset is what its attributes say then.  -> [(key, what, step)]"""
+    bad = []
+    a0 = make_array(case)
+    o0 = [frac8(v) for v in case["origin8"]]
+    s0 = [frac8(v) for v in case["sampling8"]]
+    before = {"array": a0, "origin": o0, "sampling": s0}          # the source as it read before the current call
+    for k, st in enumerate(steps):
+        opc, obs, src = st["op"], st["obs"], st["src"]
+        kind = opc["kind"]
+        name = {"bin": "bin", "rs": "resample", "pad": "pad", "crop": "crop"}[kind]
+        hist = seq_history(case, k)
+        sfx = "-after-earlier-call" if k else ""
+        if "raises" in obs:
+            bad.append(("%s-raises%s" % (name, sfx), "%s raises %s" % (hist, obs["raises"]), k))
+            continue
+        if kind == "bin":
+            found = bin_oracle(opc, obs)
+        elif kind == "rs":
+            found = rs_oracle(opc, obs)
+        elif kind == "pad":
+            found = pad_oracle(opc, obs)
+        else:
+            found = []
+        for key, what in found:
+            bad.append((key + sfx, "%s: %s" % (hist, what), k))
+        if src is None:
+            continue
+        so, ss = [Fraction(x) for x in src["origin"]], [Fraction(x) for x in src["sampling"]]
+        was, before = before, {"array": src["array"], "origin": so, "sampling": ss}
+        if src["array"].dtype != was["array"].dtype or not exact_eq(src["array"], was["array"]):
+            bad.append(("%s-source-data-after-call" % name, "%s returned a new dataset, but the data of the source differ "
+                        "afterwards (shape %s -> %s, first difference at %s): the result is no longer the %s of the source"
+                        % (hist, list(was["array"].shape), list(src["array"].shape), _first_diff(src["array"], was["array"]),
+                           {"bin": "block sums", "rs": "resampling", "pad": "padding", "crop": "crop"}[kind]), k))
+        if kind in ("bin", "rs") and (so != was["origin"] or ss != was["sampling"]):
+            # the calibration clauses with the source as it reads after the call
+            if kind == "bin":
+                law = "sampling of the result %s is not factor x sampling of the source" % (obs["sampling"],)
+            else:
+                law = "centre / extent of the result (origin %s sampling %s) are not those of the source" % (
+                    obs["origin"], obs["sampling"])
+            bad.append(("%s-source-calibration-after-call" % name, "%s returned a new dataset, and the source now reads "
+                        "origin %s sampling %s (was %s / %s): %s as it reads now, although its pixels have not moved"
+                        % (hist, src["origin"], src["sampling"], [float(x) for x in was["origin"]], [float(x) for x in was["sampling"]],
+                           law), k))
+    return bad
+
+
+def seq_exprs(case, steps):
+    """model evaluations of every step: the model is a pure function of the ORIGINAL source (a source has no state in
+    the model), so the k-th call on a source must give what the model gives for that call alone.  -> [(step, tag, expr)]"""
+    out = []
+    for k, st in enumerate(steps):
+        opc = st["op"]
+        if "raises" in st["obs"]:
+            continue
+        parts = ["re", "im"] if opc["data8_im"] is not None else ["re"]
+        if opc["kind"] == "bin":
+            out += [(k, "bin-" + p, bin_expr(opc, p)) for p in parts]
+        elif opc["kind"] == "rs":
+            out.append((k, "rsmeta", rsmeta_expr(opc)))
+        elif opc["kind"] == "pad":
+            out += [(k, "pad-" + p, pad_expr(opc, p)) for p in parts]
+        else:
+            specs = "[" + "; ".join("(%d, (%d, %d))" % (a, c[0], c[1]) for a, c in zip(opc["axes"], opc["cw"])) + "]%Z"
+            out += [(k, "crop-" + p, "crop_case %s %s %s" % (specs, zlist(opc["shape"]),
+                                                             zlist(opc["data8"] if p == "re" else opc["data8_im"])))
+                    for p in parts]
+    return out
+
+
+def seq_correspond(case, steps, tagged):
+    """tagged: [(step, tag, parsed model value)] -> [(key, what, step)]"""
+    bad = []
+    by = {}
+    for k, tag, v in tagged:
+        by.setdefault(k, {})[tag] = v
+    for k, vs in sorted(by.items()):
+        opc, obs = steps[k]["op"], steps[k]["obs"]
+        found = []
+        if opc["kind"] == "bin":
+            found = bin_correspond(opc, obs, vs["bin-re"], vs.get("bin-im"))
+        elif opc["kind"] == "rs":
+            if len(vs["rsmeta"][0]) == len(obs["origin"]) and list(obs["array"].shape) == [
+                    dict(zip(opc["axes"], rs_outs(opc))).get(ax, n) for ax, n in enumerate(opc["shape"])]:
+                found = rsmeta_correspond(opc, obs, vs["rsmeta"])
+        elif opc["kind"] == "pad":
+            for p in ("re", "im"):
+                if "pad-" + p in vs:
+                    found += pad_correspond(opc, obs, vs["pad-" + p], p)
+        else:
+            for p in ("re", "im"):
+                if "crop-" + p in vs and not ti_equal(obs["array"], vs["crop-" + p], p):
+                    found.append(("crop-correspondence", "crop(%s, axes=%s): implementation shape %s, model shape %s"
+                                  % (opc["cw"], opc["axes"], list(obs["array"].shape), [int(t) for t in vs["crop-" + p][0]])))
+                    break
+        for key, what in found:
+            bad.append((key, "%s: %s" % (seq_history(case, k), what), k))
+    return bad
+
+
+def seq_changes_calibration(opc):
+    if opc["kind"] == "bin":
+        return any(f > 1 for f in opc["factors"])
+    if opc["kind"] == "rs":
+        return rs_outs(opc) != [opc["shape"][a] for a in opc["axes"]]
+    return False
+
+
+def check_sequences(ctx: Ctx):
+    r = ctx.rng
+    cases = [dict(c) for c in _corpus().get("seq", [])]
+    for _ in range(ctx.budget(80, 1200)):
+        cases.append(gen_seq_case(r))
+    runs, exprs, owners, failed = [], [], [], {}
+    nsteps = 0
+    for ci, case in enumerate(cases):
+        steps = seq_run(case)
+        runs.append(steps)
+        bad = seq_oracle(case, steps)
+        failed[ci] = {k for _, _, k in bad}
+        for key, what, k in bad:
+            ctx.violation(key, what, dict(case, failed_step=k))
+        ops = case["ops"]
+        nsteps += len(ops)
+        form = case.get("calib") or "float-list"
+        ctx.dist("sequence/length=%d" % len(ops))
+        ctx.dist("sequence/calibration=%s" % form)
+        ctx.dist("sequence/calibration-dtype=%s" % ("integer" if form in INT_CALIB else "mixed" if form == "mixed" else "float"))
+        ctx.dist("sequence/class=%s" % (case.get("cls") or "Dataset"))
+        ctx.dist("sequence/last-call=%s" % ("in-place" if ops[-1].get("inplace") else "copying"))
+        for k in range(len(ops)):
+            opc = steps[k]["op"]
+            ctx.dist("sequence/call=%s" % opc["kind"])
+            if k:
+                ctx.dist("sequence/later-call=%s-after-%s" % (opc["kind"], "+".join(sorted({o["kind"] for o in ops[:k]}))))
+        # non-trivial: a call that speaks about calibration comes after a copying call that computes a new calibration
+        ctx.count(("seq", json.dumps(case, sort_keys=True)),
+                  nontrivial=any(seq_changes_calibration(steps[k]["op"]) for k in range(len(ops) - 1)))
+        for k, tag, e in seq_exprs(case, steps):
+            exprs.append(e)
+            owners.append((ci, k, tag))
+    vals = coq_vals(ctx, "seq", PRE_Q, exprs, 14 if ctx.quick else 40)
+    per = {}
+    for (ci, k, tag), v in zip(owners, vals):
+        per.setdefault(ci, []).append((k, tag, v))
+    nd = 0
+    for ci, tagged in sorted(per.items()):
+        ctx.cov["traces_validated_against_impl"] += len({k for k, _, _ in tagged})
+        for key, what, k in seq_correspond(cases[ci], runs[ci], tagged):
+            nd += 1
+            ctx.cov["disagreements_checked"] += 1
+            ctx.violation(key, "model and implementation disagree on a call that follows other calls on the same source (the "
+                          "model has no state: every call is a function of the original source): " + what,
+                          dict(cases[ci], failed_step=k), found_input=k in failed[ci])
+    c0 = cases[min(1, len(cases) - 1)]
+    ctx.sample({"kind": "seq", "source": {k: c0.get(k) for k in ("dtype", "shape", "origin8", "sampling8", "calib", "cls")},
+                "calls": [_op_text(seq_opcase(c0, k)) for k in range(len(c0["ops"]))],
+                "source_calibration_after_each_copying_call": [None if st["src"] is None else [st["src"]["origin"], st["src"]["sampling"]]
+                                                               for st in runs[min(1, len(cases) - 1)]]})
+    ctx.log("sequences: %d sources, %d calls, %d model evaluations, %d disagreements" % (len(cases), nsteps, len(exprs), nd))
+
+
+# ------------------------------------------------------------------------------------------
 
 def _corpus():
     from ..common import VERIF
@@ -1209,9 +1523,15 @@ def run(ctx: Ctx):
         "(ties, <1 sample), axis subsets, up/down/same, odd<->even, lengths 1..12, both float models (axis after axis; all "
         "axes at once stage by stage, for several axes); linearity with dyadic (complex) coefficients; band-limited "
         "up/down round trips (Nyquist component projected out along even axes).  In every kind: 15% of the cases name "
-        "their axes by negative index, 40% of the 2/3/4-D cases run on Dataset2d/3d/4d/4dstem.  A case is distinct by its full input; "
+        "their axes by negative index, 40% of the 2/3/4-D cases run on Dataset2d/3d/4d/4dstem.  Sequences (about 15% of the "
+        "cases): one source whose origin / sampling reach from_array as its defaults, python floats, a float64 / float32 / "
+        "int64 ndarray, python ints, one scalar, or ints + floats (about 64% float-, 25% integer-typed, 11% mixed), then 2..4 "
+        "calls (bin / fourier_resample / pad / crop, the last one a bin or a resample) ON THAT SOURCE, all copying except "
+        "that a quarter end with an in-place call; every result is judged by the single-call oracle and the model against "
+        "the ORIGINAL data and calibration, and the source is re-read after every copying call.  A case is distinct by its full input; "
         "non-trivial when some factor > 1 and the result is non-empty (bin), some pad width > 0 (pad), the output "
-        "shape differs from the input shape (resample, linearity, round trip)")
+        "shape differs from the input shape (resample, linearity, round trip), a later call follows a copying bin / resample "
+        "that computed a new calibration (sequence)")
     ctx.assumptions += [
         "numpy.fft.fftn/ifftn compute the unnormalised forward / 1/N inverse DFT; fftshift/ifftshift roll by n//2; "
         "np.pad(mode='constant') pads with zeros; basic slicing semantics of ndarray (exercised by every case, never proved)",
@@ -1242,6 +1562,7 @@ def run(ctx: Ctx):
     check_padcrop(ctx)
     check_resample(ctx)
     check_resample_laws(ctx)
+    check_sequences(ctx)
 
 
 def replay(ctx: Ctx, path):
@@ -1297,6 +1618,23 @@ def replay(ctx: Ctx, path):
         bad = lin_run(rp)
     elif kind == "updown":
         bad = updown_run(rp)
+    elif kind == "seq":
+        steps = seq_run(rp)
+        for k, st in enumerate(steps):
+            print("call %d: ds.%s" % (k + 1, _op_text(st["op"])))
+            if "raises" in st["obs"]:
+                print("   raises %s" % st["obs"]["raises"])
+            elif "origin" in st["obs"]:
+                print("   result: shape %s origin %s sampling %s" % (list(st["obs"]["array"].shape), st["obs"]["origin"],
+                                                                     st["obs"]["sampling"]))
+            if st["src"] is not None:
+                print("   source afterwards: shape %s origin %s sampling %s" % (list(st["src"]["array"].shape),
+                                                                                st["src"]["origin"], st["src"]["sampling"]))
+        bad3 = seq_oracle(rp, steps)
+        tg = seq_exprs(rp, steps)
+        v = coq_vals(ctx, "replay", PRE_Q, [e for _, _, e in tg], 8) if tg else []
+        bad3 += seq_correspond(rp, steps, [(k, tag, x) for (k, tag, _), x in zip(tg, v)])
+        bad = [(key, what) for key, what, _ in bad3]
     else:
         print("replay of kind %r: re-run ./check C06" % kind)
         return 0
